@@ -1,8 +1,10 @@
 #!/bin/bash
-# thorough tier of every check, one after the other, on the committed snapshot (cwd = snapshot)
-export ZSIM_VERIF="$PWD" ZSIM_WORKERS=10
-for p in C10 C05 C01 C11 C07 C08 C04 C15; do
+# tools/thorough_all.sh <ID>... : thorough tier of the named checks, one after the other (cwd = /verif or a snapshot of it)
+export ZSIM_VERIF="$PWD" ZSIM_WORKERS="${ZSIM_WORKERS:-8}"
+for p in "$@"; do
   echo "=== $p thorough $(date +%T)"
-  ./check $p thorough 2>&1 | grep -v "^zsim: batch .* violations=0" | tail -25
-  echo "=== $p exit=$? $(date +%T)"
+  ./check $p thorough > "thorough-$p.log" 2>&1
+  rc=$?
+  grep -v "^zsim: batch .* violations=0" "thorough-$p.log" | tail -25
+  echo "=== $p exit=$rc $(date +%T)"
 done
